@@ -31,7 +31,9 @@ type coro[V any] struct {
 
 func New[V any](k Killer, body func(y *Y[V])) Iter[V] {
 	c := &coro[V]{y: &Y[V]{resume: make(chan bool), out: make(chan msg[V])}, body: body}
-	k.OnKill(c.kill)
+	if k != nil {
+		k.OnKill(c.kill)
+	}
 	return c
 }
 
